@@ -88,6 +88,9 @@ func runMuxProp(p *muxProp, tier string, seed int64) int {
 				ref := caseRef{p.id, seed, idx, tier}
 				rep.Current(slot, ref)
 				c, opts := p.gen(seed, idx, tier)
+				// every second case also observes from inside each segment rotation (between the
+				// release of the muxer mutex and the broadcast)
+				opts.Window = idx%2 == 1
 				h := muxrun.Run(c, opts)
 				st := oracle.Stats{}
 				x := oracle.NewCtx(h, st)
@@ -105,6 +108,9 @@ func runMuxProp(p *muxProp, tier string, seed int64) int {
 				stats["cases.writes"] += len(c.Writes)
 				stats["cases.rounds"] += len(h.Rounds)
 				stats["cases.write_errors"] += h.WriteErrs
+				stats["uris.fetched_by_two_overlapping_requests"] += h.Overlapped
+				stats["rounds.inside_a_rotation"] += h.WindowRounds
+				stats["cases.parameters_left_at_their_defaults"] += h.DefaultsUsed
 				stats[fmt.Sprintf("cases.variant%d", c.Cfg.Variant)]++
 				if c.Cfg.Disk {
 					stats["cases.disk"]++
@@ -376,7 +382,7 @@ func init() {
 			}
 			return media.Gen(seed, idx, o), muxrun.Options{Light: true, RoundEvery: 4}
 		},
-		rule:        "two thirds long histories (20-80 rotations quick, 100-400 thorough), one third small SegmentMaxSize with payloads straddling the limit; non-trivial = >= 3 published segments",
+		rule:        "(every second case also observed from inside each segment rotation) two thirds long histories (20-80 rotations quick, 100-400 thorough), one third small SegmentMaxSize with payloads straddling the limit; non-trivial = >= 3 published segments",
 		assumptions: stdAssumptions(),
 		floors:      map[string]int{"C18.path_counts_checked": 2000, "C18.dir_listings_checked": 500, "C18.expired_probed": 500, "C18.size_limit_hit": 10, "C18.segments_near_limit": 5},
 	})
